@@ -1,10 +1,10 @@
 use super::{
-    stringify::{stringify_reference, DisplaceData},
+    stringify::{precedence, stringify_reference, DisplaceData},
     ArrayNode, Node, Reference,
 };
 use crate::{
     constants::{LAST_COLUMN, LAST_ROW},
-    expressions::token::OpUnary,
+    expressions::token::{OpSum, OpUnary},
     language::Language,
     locale::Locale,
 };
@@ -58,11 +58,17 @@ fn move_function(
 ) -> String {
     let mut first = true;
     let mut arguments = "".to_string();
+    let arg_separator = if locale.numbers.symbols.decimal == "." {
+        ','
+    } else {
+        ';'
+    };
     for el in args {
         if !first {
             arguments = format!(
-                "{},{}",
+                "{}{}{}",
                 arguments,
+                arg_separator,
                 to_string_moved(el, move_context, locale, language)
             );
         } else {
@@ -98,8 +104,25 @@ pub(crate) fn to_string_array_node(
         }
         ArrayNode::Number(number) => format_number_locale(*number, locale),
         ArrayNode::String(value) => format!("\"{value}\""),
-        ArrayNode::Error(kind) => format!("{kind}"),
+        ArrayNode::Error(kind) => kind.to_localized_error_string(language),
         ArrayNode::Empty => "0".to_string(),
+    }
+}
+
+/// Prints an operand read by the parser at grammar level `level` (see `stringify::precedence`), in parentheses
+/// if it binds looser than that.
+fn moved_operand(
+    node: &Node,
+    level: u8,
+    move_context: &MoveContext,
+    locale: &Locale,
+    language: &Language,
+) -> String {
+    let s = to_string_moved(node, move_context, locale, language);
+    if precedence(node) < level {
+        format!("({s})")
+    } else {
+        s
     }
 }
 
@@ -111,7 +134,13 @@ fn to_string_moved(
 ) -> String {
     use self::Node::*;
     match node {
-        BooleanKind(value) => format!("{value}").to_uppercase(),
+        BooleanKind(value) => {
+            if *value {
+                language.booleans.r#true.to_string()
+            } else {
+                language.booleans.r#false.to_string()
+            }
+        }
         NumberKind(number) => format_number_locale(*number, locale),
         StringKind(value) => format!("\"{value}\""),
         ReferenceKind {
@@ -193,7 +222,8 @@ fn to_string_moved(
             let full_column = *absolute_column1
                 && *absolute_column2
                 && (*column1 == 1)
-                && (*column2 == LAST_COLUMN);
+                && (*column2 == LAST_COLUMN)
+                && !full_row;
 
             let reference_row1 = if *absolute_row1 {
                 *row1
@@ -332,7 +362,8 @@ fn to_string_moved(
             let full_column = *absolute_column1
                 && *absolute_column2
                 && (*column1 == 1)
-                && (*column2 == LAST_COLUMN);
+                && (*column2 == LAST_COLUMN)
+                && !full_row;
 
             // NB: Excel does not displace wrong references but Google Docs does. We follow Excel
             let context = CellReferenceRC {
@@ -377,54 +408,29 @@ fn to_string_moved(
         ),
         OpConcatenateKind { left, right } => format!(
             "{}&{}",
-            to_string_moved(left, move_context, locale, language),
-            to_string_moved(right, move_context, locale, language),
+            moved_operand(left, 2, move_context, locale, language),
+            moved_operand(right, 3, move_context, locale, language),
         ),
-        OpSumKind { kind, left, right } => format!(
-            "{}{}{}",
-            to_string_moved(left, move_context, locale, language),
-            kind,
-            to_string_moved(right, move_context, locale, language),
-        ),
-        OpProductKind { kind, left, right } => {
-            let x = match **left {
-                OpSumKind { .. } => format!(
-                    "({})",
-                    to_string_moved(left, move_context, locale, language)
-                ),
-                CompareKind { .. } => format!(
-                    "({})",
-                    to_string_moved(left, move_context, locale, language)
-                ),
-                _ => to_string_moved(left, move_context, locale, language),
-            };
-            let y = match **right {
-                OpSumKind { .. } => format!(
-                    "({})",
-                    to_string_moved(right, move_context, locale, language)
-                ),
-                CompareKind { .. } => format!(
-                    "({})",
-                    to_string_moved(right, move_context, locale, language)
-                ),
-                OpProductKind { .. } => format!(
-                    "({})",
-                    to_string_moved(right, move_context, locale, language)
-                ),
-                UnaryKind { .. } => {
-                    format!(
-                        "({})",
-                        to_string_moved(right, move_context, locale, language)
-                    )
-                }
-                _ => to_string_moved(right, move_context, locale, language),
-            };
-            format!("{x}{kind}{y}")
+        OpSumKind { kind, left, right } => {
+            let right_level = if matches!(kind, OpSum::Minus) { 4 } else { 3 };
+            format!(
+                "{}{}{}",
+                moved_operand(left, 3, move_context, locale, language),
+                kind,
+                moved_operand(right, right_level, move_context, locale, language),
+            )
         }
+        OpProductKind { kind, left, right } => format!(
+            "{}{}{}",
+            moved_operand(left, 4, move_context, locale, language),
+            kind,
+            // signs and percentages on the right of a product keep their parentheses: a*(-b)
+            moved_operand(right, 8, move_context, locale, language),
+        ),
         OpPowerKind { left, right } => format!(
             "{}^{}",
-            to_string_moved(left, move_context, locale, language),
-            to_string_moved(right, move_context, locale, language),
+            moved_operand(left, 6, move_context, locale, language),
+            moved_operand(right, 7, move_context, locale, language),
         ),
         NamedFunctionKind { name, args, id: _ } => {
             move_function(name, args, move_context, locale, language)
@@ -441,34 +447,24 @@ fn to_string_moved(
             let row_separator = if locale.numbers.symbols.decimal == "." {
                 ';'
             } else {
-                '/'
+                '\\'
             };
             let col_separator = if row_separator == ';' { ',' } else { ';' };
             for row in args {
                 if !first_row {
-                    matrix_string.push(col_separator);
+                    matrix_string.push(row_separator);
                 } else {
                     first_row = false;
                 }
-
-                // Build the string for the current row
                 let mut first_col = true;
-                let mut row_string = String::new();
                 for el in row {
                     if !first_col {
-                        row_string.push(row_separator);
+                        matrix_string.push(col_separator);
                     } else {
                         first_col = false;
                     }
-
-                    // Reuse your existing element-stringification function
-                    row_string.push_str(&to_string_array_node(el, locale, language));
+                    matrix_string.push_str(&to_string_array_node(el, locale, language));
                 }
-
-                // Enclose the row in braces
-                matrix_string.push('{');
-                matrix_string.push_str(&row_string);
-                matrix_string.push('}');
             }
 
             // Enclose the whole matrix in braces
@@ -479,21 +475,21 @@ fn to_string_moved(
         NamedVariableKind { name, id: _ } => name.to_string(),
         CompareKind { kind, left, right } => format!(
             "{}{}{}",
-            to_string_moved(left, move_context, locale, language),
+            moved_operand(left, 1, move_context, locale, language),
             kind,
-            to_string_moved(right, move_context, locale, language),
+            moved_operand(right, 2, move_context, locale, language),
         ),
         UnaryKind { kind, right } => match kind {
             OpUnary::Minus => format!(
                 "-{}",
-                to_string_moved(right, move_context, locale, language)
+                moved_operand(right, 8, move_context, locale, language)
             ),
             OpUnary::Percentage => format!(
                 "{}%",
-                to_string_moved(right, move_context, locale, language)
+                moved_operand(right, 6, move_context, locale, language)
             ),
         },
-        ErrorKind(kind) => format!("{kind}"),
+        ErrorKind(kind) => kind.to_localized_error_string(language),
         ParseErrorKind { formula, .. } => formula.to_string(),
         EmptyArgKind => "".to_string(),
         ImplicitIntersection {
@@ -514,7 +510,8 @@ fn to_string_moved(
         LambdaDefKind { parameters, body } => {
             let mut parts: Vec<String> = parameters.iter().map(|p| p.name.clone()).collect();
             parts.push(to_string_moved(body, move_context, locale, language));
-            format!("LAMBDA({})", parts.join(","))
+            let arg_sep = if locale.numbers.symbols.decimal == "." { "," } else { ";" };
+            format!("LAMBDA({})", parts.join(arg_sep))
         }
         LambdaCallKind { lambda, args } => {
             let lambda_str = to_string_moved(lambda, move_context, locale, language);
@@ -522,7 +519,8 @@ fn to_string_moved(
                 .iter()
                 .map(|a| to_string_moved(a, move_context, locale, language))
                 .collect();
-            format!("{}({})", lambda_str, call_args.join(","))
+            let arg_sep = if locale.numbers.symbols.decimal == "." { "," } else { ";" };
+            format!("{}({})", lambda_str, call_args.join(arg_sep))
         }
     }
 }
